@@ -170,12 +170,12 @@ _U9_MUT = [r"ParsedPacket::(insert_rr|insertion_offset|rrcount_inc|rrcount_dec|r
            r"trait RdataIterable::(set_rr_ttl|set_rr_ip)$",
            r"<DNSIterable for (Response|Question)Iterator>::(set_offset|set_offset_next|invalidate|recompute_rr|recompute_sections|raw_mut|parsed_packet_mut)$",
            r"RRIterator::recompute$", r"Compress::raw_name_len$",
-           r"spec/(mutate|pfpacket|pfedit|pfedit_names|locality|uncompress)\.rs"]
-_U9_ASSUME = ["unc_keeps_edns: decompression copies the OPT record verbatim, so the EDNS summary of the object also describes the decompressed bytes (stated as a precondition of the resizing mutators; not mechanised)",
-              "DNSIterable::rdata_slice_mut (a two-line `&mut packet[name_end..]` accessor) is taken on trust with its obvious contract: Verus keeps no length facts for a mutable sub-slice",
+           r"spec/(mutate|pfmut|pfmut_ops|iter_mut|pfbmap|pfedns|clients_u9|pfpacket|pfedit|pfedit_names|locality|uncompress)\.rs"]
+_U9_ASSUME = ["DNSIterable::rdata_slice_mut (a two-line `&mut packet[name_end..]` accessor) is taken on trust with its obvious contract: Verus keeps no length facts for a mutable sub-slice",
               "slice_copy_into / be_write_* shims stand for `D[a..b].copy_from_slice(S)` / BigEndian::write_* (rewrite table R10, R26) with the std semantics as their contract",
               "Compress::uncompress / uncompress_with_previous_offset / check_compressed_name / DNSSector::parse enter unit U9 by their contracts, which are verified in units U6 / U1",
-              "the trait-level preconditions of set_raw_name / delete / uncompress (cursor_ok, mid_ok, del_ok: 'the cursor designates a record of the packet, later section offsets lie behind it') are what a cursor obtained from into_iter_* / next satisfies (iterator invariant of unit U2); the lemma connecting the two for every section is not mechanised yet",
+              "the resizing mutators are under contract for packets of at most 65535 bytes whose decompressed form is also at most 65535 bytes (precondition; the casts through isize in resize_rr are proved free of wrap-around under it)",
+              "composition (a cursor obtained from a walk satisfies the trait-level preconditions; object and cursor invariants hold again afterwards) is proved for cursors of the three record sections (ResponseIterator) by the verified clients of spec/clients_u9.rs; for the question cursor (QuestionIterator) and the EDNS option cursor only the trait-level contracts are proved",
               "units with iterator client loops are verified with --no-lifetime"]
 PROPS.update({
     "C08": {
@@ -184,8 +184,8 @@ PROPS.update({
         "witness": ("c08", 6000),
         "level": "proof", "design_ref": "DESIGN.md section 5 C08",
         "assumptions": _U9_ASSUME,
-        "level_text": "PARTIAL proof: every mutator (insert_rr, set_raw_name, delete, resize_rr, DNSIterable::uncompress, set_rr_ttl, set_rr_ip, rrcount_inc/dec, recompute) is proved to leave the object in an EXACTLY specified state -- bytes and each of the five offsets, the EDNS summary, the cache and the pointer flag as a function of the state before (spec/mutate.rs: inserted, named, deleted, resized, after_unc) -- and the cursor on the specified record (tombstone after delete, same record after rename/decompression). After in-place decompression the object is proved to satisfy the reader-level invariant wf() for the decompressed bytes (theorem_c05 + parse contract). NOT proved by contracts: that the specified state after insert/rename/delete again satisfies wf() for the new bytes (the edit lemma over pf_packet), and acceptance by the parser (policy clauses: open known finding); these are exercised by the differential replay (fresh parse after every step)",
-        "technique": "Verus exact-state postconditions on the extracted mutators (trait default methods verified once against abstract cursor specs); invariant re-establishment by differential replay (stated)",
+        "level_text": "every mutator (insert_rr, set_raw_name, delete, resize_rr, DNSIterable::uncompress, set_rr_ttl, set_rr_ip, rrcount_inc/dec, recompute) is proved to leave the object in an EXACTLY specified state (spec/mutate.rs: inserted, named, deleted, resized, after_unc) and the cursor on the specified record. For the three record sections the specified state is proved to satisfy the object invariant again: lemma_edit_wf (spec/pfmut.rs) shows that replacing / removing / adding one record of a pointer-free packet at a record boundary yields a pointer-free packet whose decode equals every offset, the EDNS summary and the cache of the specified object (fin.wf() && pf_packet), for insert (lemma_inserted_wf), delete (lemma_deleted_wf) and rename (lemma_named_wf); theorem_c05 + lemma_bmap_rec + lemma_unc_keeps_edns carry this through the in-place decompression of a compressed packet; the verified clients client_set_name / client_delete / client_insert / client_delete_all_answers compose the real trait methods with these lemmas end to end: `mut_ready(cursor)` in, `cursor.wf() && pf_packet && !maybe_compressed` out ('An iterator that changed a record's name still designates that record'). NOT proved by contracts: acceptance by the parser where it depends on the policy clauses (open known finding), mutations through the question cursor and the OPT record (open known finding), rename_with_raw_names (C07). The differential replay parses afresh after every step of random operation sequences",
+        "technique": "Verus exact-state postconditions on the extracted mutators (trait default methods verified once against abstract cursor specs) + edit lemmas re-establishing the object invariant + verified client compositions; policy clauses by differential replay (stated)",
     },
     "C09": {
         "title": "Each mutation has exactly its stated effect; the rest is untouched",
@@ -209,12 +209,12 @@ PROPS.update({
         "title": "Deleting records while iterating is safe, exact and terminates",
         "units": ["U9"],
         "cone": [r"trait TypedIterable::(delete|resize_rr|current_section)$", r"trait DNSIterable::(set_offset|set_offset_next|invalidate|is_tombstone|recompute_rr|recompute_sections|raw_mut|parsed_packet_mut)$",
-                 r"ResponseIterator::(next|next_including_opt|maybe_skip_opt_section)$", r"QuestionIterator::next$", r"ParsedPacket::(rrcount_dec|into_iter_)", r"RRIterator::", r"spec/(mutate|iter|reader)\.rs"],
+                 r"ResponseIterator::(next|next_including_opt|maybe_skip_opt_section)$", r"QuestionIterator::next$", r"ParsedPacket::(rrcount_dec|into_iter_)", r"RRIterator::", r"spec/(mutate|pfmut|pfmut_ops|iter_mut|pfbmap|pfedns|clients_u9|iter|reader)\.rs"],
         "witness": ("c11", 6000),
         "level": "proof", "design_ref": "DESIGN.md section 5 C11",
-        "assumptions": _U9_ASSUME + ["the walk itself (a client loop calling next() and delete()) is not a function of the repository; its termination and the 'every survivor is yielded, no deleted record again' clauses are exercised by the differential replay (all subsets of up to 8 records), not proved"],
-        "level_text": "PARTIAL proof: delete() through a cursor removes exactly the byte range of the record under the cursor from the (decompressed) packet, lowers exactly that section's count, clears the section offset when the count reaches zero, and turns the cursor into a tombstone whose restart position is the start of the removed record; a second delete() through the same cursor returns an error and leaves packet and cursor untouched (explicit postcondition). NOT proved: the whole-walk clauses (see assumptions)",
-        "technique": "Verus exact-state postcondition of delete() incl. the tombstone protocol; whole-walk clauses by differential replay (stated)",
+        "assumptions": _U9_ASSUME + ["the walk itself (a client loop calling next() and delete()) is not a function of the repository: it is verified as a client written in the repository's iteration idiom (delete-everything walk); the arbitrary-subset walk is exercised by the differential replay only"],
+        "level_text": "delete() through a cursor removes exactly the byte range of the record under the cursor from the (decompressed) packet, lowers exactly that section's count, clears the section offset when the count reaches zero, and turns the cursor into a tombstone (exact-state postcondition `deleted`); client_delete proves for every valid cursor of a record section: the call succeeds, object and cursor invariants hold again, the section then consists of the k records before the cursor in place and the n-k-1 after it moved up (byte-exact), and a second delete() through the same cursor returns an error leaving packet and cursor untouched; client_delete_all_answers proves that the repository's walk idiom deleting every record it is given terminates (decreases: records left), never yields a deleted record (each restart yields the first survivor), and leaves the section absent (count 0, offset None) with the object invariant intact, on compressed and pointer-free packets. NOT proved: the general walk with an arbitrary subset of deletions ('every survivor yielded at least once') -- exercised by the differential replay over all subsets of up to 8 records",
+        "technique": "Verus exact-state postcondition of delete() incl. the tombstone protocol + verified walk clients (termination by decreases); arbitrary-subset walks by differential replay (stated)",
     },
 })
 
